@@ -282,7 +282,7 @@ PROPS = {
     "C02": {
         "families": [("mailbox", 700, 20000), ("faults", 500, 12000), ("stop-race", 300, 8000), ("timeouts", 300, 8000), ("owning", 200, 6000)],
         "monitors": ["C04", "C03"],
-        "theorems": ["C02_call_returns_its_slot", "C02_response_only_from_own_handler", "C02_handler_answers_own_message", "C02_response_written_once"],
+        "theorems": ["C02_call_returns_its_slot", "C02_response_only_from_own_handler", "C02_handler_answers_own_message", "C02_response_written_once", "C02_waiting_call_is_queued_or_running", "C02_dead_target_resolves", "C02_nothing_hangs_on_a_dead_actor"],
         "nontrivial": nt_c02,
         "rule": "cases generated from (family, VERIF_SEED, index): concurrent calls, pings, sends, halts, joins and awaits from 1-4 client tasks through Addr, OwningAddr, Caller, WeakCaller; every termination cause (stop, last drop, failed start, handler panic, fatal timeout, task cancellation) at random positions relative to the pending operations; non-trivial = calls of two different client tasks were answered, or an operation was pending when its target's task ended; distinct = distinct case JSON",
         "assumptions": ["the response of the script actor's handlers is the actor's whole log at completion, so two different invocations never produce equal responses by accident",
@@ -341,9 +341,12 @@ MANIFEST_TEXT = {
     },
     "C02": {
         "text": "Theorems (Coq): C02_response_written_once (over every continuation of any length a written response is never rewritten, swapped or withdrawn), C02_response_only_from_own_handler (for every event: a value enters the slot of message o only by the completion of o's own handler), "
-                "C02_handler_answers_own_message, C02_call_returns_its_slot. Exactly-once handling is C01_queued_at_most_once. [partial] 'every operation resolves after termination' is the model's progress check (no returnable operation may be pending when the executor is idle) validated by correspondence and the search acceptor, plus C04_announce for awaits and C06_containment for the failure paths.",
+                "C02_handler_answers_own_message, C02_call_returns_its_slot. Exactly-once handling is C01_queued_at_most_once. "
+                "Resolution, over all reachable states (induction over traces of any length): C02_waiting_call_is_queued_or_running (a call / ping still waiting for its response has its message queued at or being handled by its target), "
+                "C02_dead_target_resolves (every client operation whose target has terminated, for whatever reason, can return now, and ret_expect names the error / termination result), C02_nothing_hangs_on_a_dead_actor (no accepted run ends with an operation pending on a terminated actor). "
+                "[partial] these are safety statements about the model ('can return', 'a run cannot end with it pending'); that the implementation's wake-ups make it return is the correspondence check (the executor's quiescence events are accepted only in stable states) and the search acceptor.",
         "note": COMMON_NOTE,
-        "technique": "Rocq/Coq proof (invariant over all continuations + one-step theorems over all states and events) over an executable model; correspondence by differential run of model and implementation",
+        "technique": "Rocq/Coq proof (invariants over all reachable states by induction over traces, invariant over all continuations, one-step theorems over all states and events) over an executable model; correspondence by differential run of model and implementation",
         "design_ref": "DESIGN.md section 6 C02",
     },
     "C08": {
